@@ -129,6 +129,9 @@ def repair(lines, nonconfs):
                     if p["ev"] == "Walked" and p["c"] == e["c"]:
                         e["ret"] = p["got"]
                         break
+        if e["ev"] == "CheckEnd" and "ProtocolSkipped" in kinds:
+            out.append({"ev": "CheckBegin", "c": e["c"], "bufLen": 0})
+            out.append({"ev": "Walked", "c": e["c"], "file": bad[i][0]["file"], "got": e["ret"], "fresh": e["ret"], "fpSame": True, "warnOK": True, "skipClear": True})
         if e["ev"] in ("CheckPanic", "CheckTimeout"):
             out.append({"ev": "Walked", "c": e["c"], "file": e["file"], "got": "", "fresh": "", "fpSame": True, "warnOK": True, "skipClear": True})
             out.append({"ev": "CheckEnd", "c": e["c"], "ret": ""})
